@@ -31,19 +31,19 @@ use std::collections::{BTreeSet, HashMap};
 use std::sync::Arc;
 use testutils::TestRepo;
 
-struct Hist {
+pub(crate) struct Hist {
     /// all commits ever written, creation order (root first)
-    commits: Vec<Commit>,
-    by_id: HashMap<CommitId, usize>,
+    pub(crate) commits: Vec<Commit>,
+    pub(crate) by_id: HashMap<CommitId, usize>,
     /// anc[i] = creation indices of the ancestors of i (including i) — the naive graph search
-    anc: Vec<BTreeSet<usize>>,
+    pub(crate) anc: Vec<BTreeSet<usize>>,
     /// longest path to a parentless commit
-    depth: Vec<u32>,
-    counter: u64,
+    pub(crate) depth: Vec<u32>,
+    pub(crate) counter: u64,
 }
 
 impl Hist {
-    fn push(&mut self, c: Commit) -> usize {
+    pub(crate) fn push(&mut self, c: Commit) -> usize {
         let i = self.commits.len();
         let mut a = BTreeSet::new();
         a.insert(i);
@@ -61,23 +61,23 @@ impl Hist {
     }
 }
 
-fn eval_ids(index: &dyn Index, store: &Arc<Store>, expr: &ResolvedExpression) -> Result<Vec<CommitId>, String> {
+pub(crate) fn eval_ids(index: &dyn Index, store: &Arc<Store>, expr: &ResolvedExpression) -> Result<Vec<CommitId>, String> {
     let rs = index.evaluate_revset(expr, store).map_err(|e| e.to_string())?;
     let v: Vec<_> = rs.stream().collect::<Vec<_>>().block_on();
     v.into_iter().map(|r| r.map_err(|e| e.to_string())).collect()
 }
 
 /// The view of one index state: which commits it contains and at which global positions.
-struct Pos {
+pub(crate) struct Pos {
     /// position → creation index
-    at: Vec<usize>,
+    pub(crate) at: Vec<usize>,
     /// creation index → position
-    of: HashMap<usize, usize>,
+    pub(crate) of: HashMap<usize, usize>,
     /// the request encoding `parentsOfPos0;parentsOfPos1;…`
-    enc: String,
+    pub(crate) enc: String,
 }
 
-fn observe_positions(out: &mut Out, h: &Hist, index: &dyn Index, store: &Arc<Store>, label: &str,
+pub(crate) fn observe_positions(out: &mut Out, h: &Hist, index: &dyn Index, store: &Arc<Store>, label: &str,
                      expected: &BTreeSet<usize>) -> Option<Pos> {
     let members: Vec<usize> = (0..h.commits.len())
         .filter(|&i| index.has_id(h.commits[i].id()).block_on().unwrap())
@@ -119,7 +119,7 @@ fn observe_positions(out: &mut Out, h: &Hist, index: &dyn Index, store: &Arc<Sto
     Some(Pos { at, of, enc })
 }
 
-fn show_pos(v: &[usize]) -> String { show_list(&v.iter().map(|&x| x as u64).collect::<Vec<_>>()) }
+pub(crate) fn show_pos(v: &[usize]) -> String { show_list(&v.iter().map(|&x| x as u64).collect::<Vec<_>>()) }
 
 /// maximal elements of a set of creation indices
 fn maximal(h: &Hist, s: &BTreeSet<usize>) -> BTreeSet<usize> {
